@@ -11,6 +11,7 @@ finding KF-no-duplicate-check), so agreement is with the reference *without* tha
 import PromqlVerif.Proofs.Agg
 import PromqlVerif.Proofs.OptSound
 import PromqlVerif.Properties.C09
+import PromqlVerif.Proofs.TheoremP
 namespace PromqlVerif.C01
 open PromqlVerif Val
 
@@ -115,6 +116,47 @@ theorem engine_equals_reference_with_optimizers (c : Ctx V) (hq : c.q.noDupCheck
   obtain ⟨o, xs, ho, hs, hids, hev⟩ := vector_fragment c hq _ hfrag t
   refine ⟨o, xs, ho, hs, hids, ?_⟩
   rw [← hev, C09.sort_then_merge_plan_sound]
+
+/-- **C01 up to order, through aggregations and vector matching** (`Proofs/TheoremP.lean`). The
+fragment above closed under
+  * aggregations `op by/without (..) (e)` on both of the engine's paths (hash table, vectorized),
+    for every aggregator whose accumulator is the reference reduction on non-empty groups (`hR`:
+    `C04.reduce_hyp_plain/_sum/_avg`) and whose reduction does not depend on the order of the
+    members (`hP`: `perm_hyp_count`, `perm_hyp_group` outright; `perm_hyp_max/_min` under the IEEE
+    order laws with trichotomy and one NaN; `perm_hyp_sum` under associativity and commutativity),
+  * one-to-one vector matching `l op on/ignoring (..) r`, with and without `bool`, between operands
+    whose series have pairwise distinct match keys (`UniqueKeys`; `uniqueKeys_agg`: always the case
+    for `agg by (g) (..)` matched `on (g)` and `agg without (g) (..)` matched `ignoring (g)`),
+  * pointwise functions, unary minus, parentheses, vector-scalar arithmetic and comparison,
+nested to any depth: plan construction succeeds, no step fails in either engine, and the step
+vector read through `Series()` is a permutation of the reference value. The engine orders groups
+and join outputs statically and the reference by first appearance at the step, so a permutation
+is all there is; it composes because the reference operators are invariant under permutations of
+their operands (`aggregate_perm`, `vectorBinop_perm`). -/
+theorem engine_equals_reference_up_to_order (c : Ctx V) (hq : c.q.noDupCheck = true) (e : Expr V) (h : FragP c e) :
+    ∃ o, engOp c e = .ok o ∧
+      ∀ t, ∃ xs out, o.step t = .ok xs ∧ eval c t e = .ok (.vec out) ∧ (denote o.series xs).Perm out :=
+  fragP_inv c hq e h
+
+/-- non-vacuity, for every storage: `count(abs(count by (a) (m) / on (a) group by (a) (rate(n[1m]))) > 0)` -/
+example (c : Ctx V) : FragP c
+    (.agg "count" false []
+      (.bin ">" false ⟨.oneToOne, false, [], []⟩
+        (.call "abs" [.bin "/" false ⟨.oneToOne, true, ["a"], []⟩
+          (.agg "count" false ["a"] (.vsel ⟨[⟨.eq, "__name__", "m"⟩], 0, none, none⟩))
+          (.agg "group" false ["a"] (.call "rate" [.msel ⟨[⟨.eq, "__name__", "n"⟩], 0, none, none⟩ 60000]))])
+        (.num (ofInt 0))) : Expr V) :=
+  .agg "count" false [] _ (by decide) (C04.reduce_hyp_plain "count" nan (by decide) (by decide)) (perm_hyp_count nan)
+    (.binVS ">" false _ _ _ (by decide)
+      (.simple "abs" _ (by decide)
+        (.join "/" false _ _ _ rfl rfl (by decide)
+          (uniqueKeys_agg c _ "count" false ["a"] _ rfl rfl)
+          (uniqueKeys_agg c _ "group" false ["a"] _ rfl rfl)
+          (.agg "count" false ["a"] _ (by decide) (C04.reduce_hyp_plain "count" nan (by decide) (by decide)) (perm_hyp_count nan)
+            (.base _ (.vsel _)))
+          (.agg "group" false ["a"] _ (by decide) (C04.reduce_hyp_plain "group" nan (by decide) (by decide)) (perm_hyp_group nan)
+            (.base _ (.rangefn "rate" _ _ (by decide))))))
+      (.num _))
 
 /-- a creation error is always "unsupported": exactly the queries that fall back -/
 theorem creation_error_class (c : Ctx V) (e : Expr V) (er : Err) (h : engOp c e = .error er) : er = .unsupported :=
